@@ -126,6 +126,68 @@ def run(ctx):
                                   {"build": name, "state1": s1, "state2": s2, "t1": v1, "t2": v2}, key="c20:mono:%s" % (s1,))
     ctx.cov["evaluations"] += 2 * len(pc)
     ctx.cov["distinct_nontrivial"] += len(pairs)
+    # (4) the glue: what Search actually allots (_search_time after go) for a clocked go - the colour and ply handed to the time
+    #     manager, and every later override (single-legal-move roots) - on generated positions incl. roots with exactly one legal move
+    import posgen
+    from searchlib import run_sessions, parse_go
+    drv = harness("search_driver")
+    pool = posgen.valid_positions(model, rng, 1200 if q else 12000, extra=posgen.CLASSIC + ["k7/8/8/8/8/8/r7/7K w - - 0 1", "7k/R7/8/8/8/8/8/K7 b - - 0 1"])
+    rc, lg, err = run_lines(model, ["legal " + f for f in pool], shards=NPROC)
+    nlegal = {f: int((l or "0").split()[0]) for f, l in zip(pool, lg)}
+    single = [f for f in pool if nlegal[f] == 1]
+    multi = [f for f in pool if nlegal[f] > 1]
+    gl = []
+    for f in single[: (60 if q else 800)] + multi[: (60 if q else 800)]:
+        w = f.split()[1] == "w"
+        for _ in range(2):
+            T = rng.choice([1, 10, 49, 50, 100, 300, 700, 714, 715, 1000, 5000, 60000, rng.randrange(1, 100000)])
+            other = rng.choice([3_600_000, 86_400_000])
+            lim = "%s %d %s %d" % ("wtime" if w else "btime", T, "btime" if w else "wtime", other)
+            if rng.random() < 0.4:
+                lim += " %s %d" % ("winc" if w else "binc", rng.choice([0, 10, 1000]))
+            if rng.random() < 0.4:
+                lim += " movestogo %d" % rng.choice([1, 2, 40])
+            gl.append((f, T, "go %s | | %s nodes 300" % (f, lim), lim))
+    gres, gcr = run_sessions(drv, [[g[2]] for g in gl], timeout=600)
+    # what calculateTime itself returns for the same limits, colour and ply (same compiler flags as the search driver)
+    impl_plain = harness("impl_driver")
+
+    def time_case(f, lim):
+        t = lim.split()
+        kv = {t[i]: int(t[i + 1]) for i in range(0, len(t), 2)}
+        w = f.split()[1] == "w"
+        ply = 2 * int(f.split()[5]) - 1 + (0 if w else 1)      # Position::ply_count (RepAbs.r_ply)
+        return "time %d %d %d %d %d" % (kv["wtime" if w else "btime"], kv.get("winc" if w else "binc", 0), kv.get("movestogo", 0), ply, 0 if w else 1)
+    rc, calc, err = run_lines(impl_plain, [time_case(g[0], g[3]) for g in gl], shards=NPROC)
+    nglue = 0
+    glue_mism = []
+    for (f, T, cmd, lim), r, c in zip(gl, gres, calc):
+        g = parse_go(r[0]) if r else None
+        if g is not None and "alloc" in g and c is not None and c.lstrip("-").isdigit():
+            expect = min(int(c), 500) if nlegal[f] == 1 else int(c)        # Props/Properties_C20.v: final_allotment
+            if g["alloc"] != expect:
+                glue_mism.append((cmd, g["alloc"], expect))
+    for (f, T, cmd, lim), r in zip(gl, gres):
+        g = parse_go(r[0]) if r else None
+        if g is None or "alloc" not in g:
+            continue
+        nglue += 1
+        a = g["alloc"]
+        if a < 0 or 10 * a > 7 * T:
+            nviol += 1
+            if nviol <= 6:
+                ctx.violation("the search allots %d ms to a move with %d ms on the clock (allowed 0..%d): position '%s' (%d legal move%s), %s"
+                              % (a, T, 7 * T // 10, f, nlegal[f], "" if nlegal[f] == 1 else "s", cmd.split(" | ")[-1]),
+                              {"session": [cmd], "allotted_ms": a, "clock_ms": T, "legal_moves": nlegal[f]}, key="c20:glue:%s:%d" % (f, T))
+    ctx.cov["evaluations"] += nglue
+    ctx.notes["glue_level_clocked_searches"] = nglue
+    ctx.notes["glue_single_legal_move_roots"] = len(single[: (60 if q else 800)])
+    ctx.notes["glue_allotment_equals_model"] = len(gl) - len(glue_mism)
+    if glue_mism and nviol == 0:
+        ctx.violation("correspondence 'glue' broken: Search allots %d ms where final_allotment(single-move root, calculateTime(limits, side to move, ply)) = %d ms "
+                      "(%d of %d clocked searches differ; first: %s) and no allotment above 70%% of the clock was found"
+                      % (glue_mism[0][1], glue_mism[0][2], len(glue_mism), len(gl), glue_mism[0][0]),
+                      {"correspondence": "glue", "first": glue_mism[0], "count": len(glue_mism)}, no_input=True)
     # correspondence verdict
     if mism and nviol == 0:
         # the model no longer describes the code; the properties were checked directly above on the same inputs:
@@ -147,7 +209,8 @@ def run(ctx):
     ctx.cov["rule"] = ("%d clock states (boundary grid T in {0,1,9,10,11,...,24h}, inc in {0,1,1000,10min}, movestogo in {0,1,2,3,50,200}, ply in {0,1,64,65,129,1000} "
                        "+ random): (1) calculateTime of a strict-IEEE build must EQUAL the extracted Coq model run on native binary64 with the build's own "
                        "importance() values; (2) non-negativity and the 70%% cap on the strict and the -Ofast build; (3) monotonicity on %d pairs (T, T+d) incl. dense chains (every ms in 0..400 for 24 parameter combinations, 120-ms windows around random clocks) on both builds; "
-                       "(0) importance(x) in [1/128,1] for all x=0..%d (exhaustive). non-trivial = T > 0; distinct by case text."
+                       "(0) importance(x) in [1/128,1] for all x=0..%d (exhaustive); (4) the thinking time Search actually allots (_search_time after go) on clocked searches of generated positions, "
+                       "half of them roots with exactly one legal move, the other side's clock set to hours: within 0..70%% of the mover's clock and equal to final_allotment(single, calculateTime). non-trivial = T > 0; distinct by case text."
                        % (len(cases), len(pairs), NIMP - 1))
     if not ok and nviol == 0 and not mism:
         ctx.violation("Coq obligations for C20 no longer check (%s); no failing clock state found" % ", ".join(failed),
